@@ -90,6 +90,10 @@ def std_variants(tier: str, noop: bool) -> List[Dict[str, Any]]:
     bv = _v("local", "local+lru", ["one", "split"], "from", 0.2)
     bv["var_names"] = "builtin"
     v.append(bv)
+    # tracked variables that carry the name of a function of another module
+    fv = _v("local", "local", ["split"], "from", 0.2)
+    fv["var_names"] = "funs"
+    v.append(fv)
     # script placement: the whole pipeline in one file executed as __main__
     sv = _v("local", "local", ["one"], "from", 0.2)
     sv["script"] = True
